@@ -344,12 +344,14 @@ Proof. vm_compute. split; reflexivity. Qed.
 (** 13. Reading DATA into per-stream buffers.  If the peer was never granted
     more than the free space of the target stream's buffer, a read attempt
     never parks the connection, so a WINDOW_UPDATE queued behind DATA is always
-    reached.  sozu grants 65535 per stream up front and returns stream credit
-    when a frame is read, not when its bytes leave the 16 KiB buffer, so the
-    premise does not hold: [wedge_reachable] is the final state of the OPEN
-    finding `proxy-wedged` (both connections parked on a DATA frame for a full
-    buffer, each one's send window at 0, each peer's WINDOW_UPDATE unread
-    behind the parked frame): no read step is possible on either side. *)
+    reached.  Before the repair sozu granted 65535 per stream up front and
+    returned stream credit when a frame was read, not when its bytes left the
+    16 KiB buffer, so the premise did not hold: [wedge_reachable] is the final
+    state of the finding `proxy-wedged` (both connections parked on a DATA
+    frame for a full buffer, each one's send window at 0, each peer's
+    WINDOW_UPDATE unread behind the parked frame): no read step is possible on
+    either side.  [stream_credit_follows_buffer] (14) establishes the premise
+    for the repaired receiver. *)
 Theorem reading_never_parks_under_buffer_credit :
   forall c f r,
     rc_incoming c = f :: r ->
@@ -362,3 +364,61 @@ Example wedge_reachable :
   let back := mkrc [FData 0 16384; FWindowUpdate 65535] [12] 0 in    (* backend socket: DATA for a full response buffer, then the credit *)
   read_one front = None /\ read_one back = None /\ rc_send_window front = 0 /\ rc_send_window back = 0.
 Proof. vm_compute. repeat split; reflexivity. Qed.
+
+
+(** 14. Stream credit follows the buffer (repair of `proxy-wedged`).  The
+    announced stream window is at most the buffer capacity; received DATA is
+    owed, not credited; [release_stream_credit] grants what keeps the peer's
+    remaining window within the buffer's free space.  From a stream whose
+    buffer is empty (its head has been forwarded), under any interleaving of
+    compliant DATA frames, drains and releases: the peer's remaining window
+    never exceeds the free space, so every DATA frame fits (reading never
+    parks on this stream); no credit is lost or invented; and a release gives
+    the peer its whole window back or exactly the free space (a blocked peer
+    whose bytes were drained is always unblocked).
+    Not covered: DATA that arrives while the request/response head still
+    occupies the buffer, or before the peer has applied our SETTINGS (first
+    flight): such a frame can still park the connection until the head is
+    forwarded, which needs no flow-control credit. *)
+Theorem stream_credit_follows_buffer :
+  forall capacity b evs b' gs,
+    let a := announced_stream_window capacity in
+    sb_inv a b -> sb_legal_run a b evs -> sb_run a b evs = (b', gs) ->
+    sb_inv a b' /\ sb_all_fit a b evs /\
+    sb_owed b' + sumz gs = sb_owed b + sumz (map sb_received evs).
+Proof.
+  intros capacity b evs b' gs a I L R.
+  destruct (sb_run_inv a evs b I L) as [I' F]. rewrite R in I'. cbn [fst] in I'.
+  repeat split; try assumption; try apply I'. exact (sb_run_conservation a evs b b' gs R).
+Qed.
+
+Theorem stream_credit_initial_and_release :
+  forall capacity, 0 <= capacity ->
+    let a := announced_stream_window capacity in
+    sb_inv a (mksb capacity 0) /\
+    forall b, sb_inv a b ->
+      let b' := fst (sb_step a b SRelease) in
+      sb_owed b' = 0 \/ a - sb_owed b' = sb_free b'.
+Proof.
+  intros capacity H a. split.
+  - unfold sb_inv, a, announced_stream_window, DEFAULT_INITIAL_WINDOW_SIZE. cbn [sb_free sb_owed]. lia.
+  - intros b I. exact (sb_release_maximal a b I).
+Qed.
+
+Theorem reading_never_parks_after_repair :
+  forall a c s len r b,
+    rc_incoming c = FData s len :: r ->
+    nth s (rc_free c) 0 = sb_free b ->
+    sb_inv a b -> sb_legal a b (SData len) ->
+    read_one c <> None.
+Proof.
+  intros a c s len r b Hi Hf I L. apply (read_one_never_parks c (FData s len) r Hi).
+  intros s0 len0 E. inversion E; subst. rewrite Hf. exact (sb_data_fits a b len0 I L).
+Qed.
+
+Example stream_credit_follows_buffer_nonvacuous :
+  (* 16393-byte buffer: the peer fills it, half is drained, a release grants 8000; all drained, the rest *)
+  sb_run (announced_stream_window 16393) (mksb 16393 0)
+         [SData 16384; SData 9; SRelease; SDrain 8000; SRelease; SDrain 8393; SRelease]
+  = (mksb 16393 0, [0; 0; 0; 0; 8000; 0; 8393]).
+Proof. vm_compute. reflexivity. Qed.
